@@ -711,6 +711,8 @@ Qed.
 
 Lemma pops_app : forall a b, pops (a ++ b) = pops a ++ pops b.
 Proof. intros. unfold pops. apply flat_map_app. Qed.
+Lemma pops_cons : forall x l, pops (x :: l) = pop_of x ++ pops l.
+Proof. reflexivity. Qed.
 Lemma pops_repeat_push : forall t n, pops (repeat (PPush t) n) = repeat (OPush (ptask t)) n.
 Proof. intros t n. induction n as [|n IH]; [reflexivity|]. cbn [repeat]. unfold pops in *. cbn [flat_map pop_of app]. rewrite IH. reflexivity. Qed.
 
@@ -789,6 +791,98 @@ Proof.
     rewrite E2. cbn [compile_go flat_map]. rewrite !pops_app.
     change (pops [PWaitEmpty]) with [OPoll].
     change (snd b) with (repeat (PPush (mk_task true (0%N, 0%N) 0 det_flush_prio 0 (ps_seq (fst a)) (ps_rnd (fst a)))) n).
-    unfold final_block, final_ops. match goal with |- ?g => idtac g end. rewrite !pops_repeat_push.
-    rewrite <- ?app_assoc, ?app_nil_r. cbn [app]. reflexivity.
+    unfold final_block, final_ops. repeat (rewrite pops_app || rewrite pops_cons). rewrite !pops_repeat_push.
+    cbn [pop_of].
+    rewrite <- ?app_assoc, ?app_nil_r. cbn [app]. rewrite <- ?app_assoc. cbn [app]. reflexivity.
 Qed.
+
+(* ------------------------------------------------------------------------------------------ GOAL C *)
+Lemma blocks_pushes : forall pack l calls m np no gc, exists m' np' no' gc',
+  list_sum (map blocks_of_cmd (compile_go false pack (map push_call l ++ calls) m np no gc))
+  = list_sum (map blocks_of_cmd (compile_go false pack calls m' np' no' gc')).
+Proof.
+  intros pack l. induction l as [|inp l IH]; intros calls m np no gc.
+  - exists m, np, no, gc. reflexivity.
+  - cbn [map app push_call compile_go]. destruct (lookupZ (fst (fst (fst inp))) m); cbn [andb map blocks_of_cmd];
+      rewrite list_sum_cons, Nat.add_0_l; apply IH.
+Qed.
+
+Lemma nblocks_mf : forall pack first rest, nblocks (compile_calls false pack (mf_calls first rest)) = 2.
+Proof.
+  intros pack first rest. unfold nblocks, compile_calls, mf_calls.
+  destruct (blocks_pushes pack first ([CDrain; CSync] ++ map push_call rest) [] first_priority 0%N 0%N)
+    as (m1 & np1 & no1 & gc1 & E1). rewrite E1. cbn [app compile_go map blocks_of_cmd].
+  rewrite !list_sum_cons.
+  destruct (blocks_pushes pack rest [] m1 np1 (no1 + 1)%N gc1) as (m2 & np2 & no2 & gc2 & E2).
+  rewrite app_nil_r in E2. rewrite E2. reflexivity.
+Qed.
+
+Lemma f2_join_map : forall sc sc' (ex : nat -> list task),
+  (forall k, NoDup (map t_key (ex k))) ->
+  forall ks (la lb : list (list N)),
+  Forall2 (fun seqs k => Permutation (map (task_at sc) seqs) (ex k)) la ks ->
+  Forall2 (fun seqs k => Permutation (map (task_at sc') seqs) (ex k)) lb ks ->
+  Forall2 (fun rd rd' => same_comp rd rd' /\ NoDup (map t_key (concat rd)))
+          (map (fun seqs => [map (task_at sc) seqs]) la) (map (fun seqs => [map (task_at sc') seqs]) lb).
+Proof.
+  intros sc sc' ex ND ks. induction ks as [|k ks IH]; intros la lb Ha Hb; inversion Ha; inversion Hb; subst.
+  - constructor.
+  - cbn [map]. constructor; [|apply IH; assumption].
+    unfold same_comp. cbn [concat]. rewrite !app_nil_r. split.
+    + eapply Permutation_trans; [eassumption|apply Permutation_sym; eassumption].
+    + eapply Permutation_NoDup; [apply Permutation_map; apply Permutation_sym; eassumption|apply ND].
+Qed.
+
+Section LinkFull.
+  Variables G Buf Res Part : Type.
+  Variable segment : Determinism.contig -> list N.
+  Variable classify : G -> list (skey * N) -> G * list Buf.
+  Variable flushf : Buf -> Buf * list (N * Part) * Res.
+  Variable res_gid : Res -> N.
+  Variable commit : G -> list Res -> list Buf -> G.
+  Variable fin_seq : G -> G * list (N * Part).
+  Variable fin_packs : G -> list (N * Part).
+  Variable meta_parts : G -> list (N * Part).
+  Hypothesis classify_streams_disjoint :
+    forall g l, streams_disjoint Buf Res Part (map flushf (snd (classify g l))).
+  Hypothesis fin_packs_distinct_streams : forall g, NoDup (map fst (fin_packs g)).
+  Notation out := (output G Buf Res Part segment classify flushf res_gid commit fin_seq fin_packs meta_parts).
+
+  Theorem terminating_and_deterministic_proof : forall n n' capa capa' pack pack' first rest,
+    0 < n -> 0 < n' ->
+    (2 * Z.of_nat (length (first ++ rest)) + 4 < det_prio_start - 1000000)%Z ->
+    NoDup (map (fun inp : input => fst (fst inp)) (first ++ rest)) ->
+    let script := compile_calls false pack (mf_calls first rest) in
+    let script' := compile_calls false pack' (mf_calls first rest) in
+    let pa := mkParams n capa false in
+    let pa' := mkParams n' capa' false in
+    let sc := multifile_script current_rule n first rest in
+    let sc' := multifile_script current_rule n' first rest in
+    (forall s, reachable pa script s -> ends_final pa s) /\
+    (forall s s' cl cl' s3 s3' g0,
+       reachable pa script s -> final s -> reachable pa' script' s' -> final s' ->
+       out g0 (attach (proto_rounds sc s) cl) s3 = out g0 (attach (proto_rounds sc' s') cl') s3').
+  Proof.
+    intros n n' capa capa' pack pack' first rest Hn Hn' Hb Hk script script' pa pa' sc sc'.
+    split.
+    - intros s RS. apply (run_reaches_final_proof pa script eq_refl Hn s RS).
+    - intros s s' cl cl' s3 s3' g0 RS F RS' F'.
+      pose proof (multifile_wf n first rest Hn Hb) as WF. pose proof (multifile_wf n' first rest Hn' Hb) as WF'.
+      pose proof (multifile_match_proof n pack first rest Hb) as SM.
+      pose proof (multifile_match_proof n' pack' first rest Hb) as SM'.
+      destruct (rounds_link_proof pa script sc 2 eq_refl Hn SM WF s RS) as (F2 & FL).
+      destruct (rounds_link_proof pa' script' sc' 2 eq_refl Hn' SM' WF' s' RS') as (F2' & FL').
+      specialize (FL F). specialize (FL' F'). unfold script in FL. unfold script' in FL'.
+      rewrite nblocks_mf in FL, FL'. rewrite FL in F2. rewrite FL' in F2'.
+      destruct (multifile_ctg_indep current_rule n n' first rest) as [E1 E2].
+      pose proof (expected_round_same_ctg _ _ E1) as HE.
+      apply schedule_independent_proof; [exact classify_streams_disjoint|exact fin_packs_distinct_streams|].
+      unfold attach. apply attach_same.
+      + unfold proto_rounds. apply (f2_join_map sc sc' (expected_round sc)) with (ks := seq 0 2).
+        * intros k. rewrite expected_round_ctg. apply nodup_map_filter. fold sc in E2. rewrite E2. exact Hk.
+        * exact F2.
+        * eapply forall2_impl; [|exact F2']. intros seqs k HH. cbn beta in *. rewrite HE. exact HH.
+      + rewrite app_length, repeat_length. lia.
+      + rewrite app_length, repeat_length. lia.
+  Qed.
+End LinkFull.
